@@ -35,9 +35,9 @@ func (c09) Meta() Meta {
 
 func c09Params(tier string) (nGenQ, nGenT, broken int) {
 	if tier == "thorough" {
-		return 60, 600, 12
+		return 400, 6000, 12
 	}
-	return 60, 600, 3
+	return 400, 6000, 3
 }
 
 func (p c09) NumUnits(tier string, seed int64) int {
@@ -148,8 +148,11 @@ func (m *declModel) body(body *hclsyntax.Body, e *model.Eff, depth int) {
 			switch as.Constraint.(type) {
 			case schema.AnyExpression, schema.LiteralType:
 				if t := consType(as.Constraint); t.IsPrimitiveType() {
-					if _, isLit := attr.Expr.(*hclsyntax.LiteralValueExpr); isLit {
-						m.decls = append(m.decls, d)
+					if lv, isLit := attr.Expr.(*hclsyntax.LiteralValueExpr); isLit {
+						// (a literal of another primitive type does not conform: no requirement)
+						if lv.Val.Type() == t {
+							m.decls = append(m.decls, d)
+						}
 					} else if te, isT := attr.Expr.(*hclsyntax.TemplateExpr); isT && te.IsStringLiteral() && t == cty.String {
 						d.wantType = cty.String
 						m.decls = append(m.decls, d)
